@@ -44,7 +44,9 @@ SHRINK_BUDGET = {'quick': 120, 'thorough': 400}
 KEYCOLS = [('KT', 'Text'), ('KI', 'Int'), ('KN', 'Numeric'), ('KB', 'Bool'), ('KD', 'Date'), ('KC', 'Choice'),
            ('KR', 'Ref:Tgt'), ('KL', 'ChoiceList'), ('KM', 'RefList:Tgt')]
 SORTCOLS = [('SA', 'Numeric'), ('SB', 'Text'), ('SI', 'Int')]
-SRC_COLS = KEYCOLS + SORTCOLS
+SRC_COLS = KEYCOLS + SORTCOLS             # data columns
+KF_FORMULA = "($KT or '').upper() + ($KC or '')"
+LOOKUP_COLS = KEYCOLS + [('KF', 'Text')]  # KF is a formula column of Src: lookups of computed values
 PROBECOLS = [('PT', 'Text'), ('PI', 'Int'), ('PN', 'Numeric'), ('PB', 'Bool'), ('PD', 'Date'), ('PC', 'Choice'),
              ('PR', 'Ref:Tgt'), ('PL', 'ChoiceList')]
 
@@ -65,7 +67,7 @@ MS_POOL = [1.0, 2.0, 3.0, 4.0, 5.0, 6.0, 7.0, 8.0, 0.5, 2.5]
 
 # constant keys per looked-up column type (python literals in the formula)
 CONST = {
-  'Text': ['a', 'b', '', None, 1, 2.0, 'A'],
+  'Text': ['a', 'b', '', None, 1, 2.0, 'A', 'Aa', 'B'],
   'Int': [1, 2, 0, None, '2', 'abc', 2.0, True, ''],
   'Numeric': [1.0, 1.5, 2, None, '1.5', 'abc', '', 0],
   'Bool': [True, False, None, 1, 0, 'yes', 'maybe', 'no'],
@@ -122,12 +124,12 @@ def strategy(tier):
   sel = st.integers(0, 11)
   row = st.lists(sel, min_size=len(SRC_COLS) + 1, max_size=len(SRC_COLS) + 1)
   prow = st.lists(sel, min_size=len(PROBECOLS), max_size=len(PROBECOLS))
-  keyspec = st.tuples(st.integers(0, len(KEYCOLS) - 1), st.integers(0, 2), sel, st.booleans(), st.integers(0, 5)).map(list)
+  keyspec = st.tuples(st.integers(0, len(LOOKUP_COLS) - 1), st.integers(0, 2), sel, st.booleans(), st.integers(0, 5)).map(list)
   order = st.tuples(st.sampled_from([0, 1, 2, 2, 3, 3, 4, 5, 6, 7, 8]), st.lists(st.tuples(st.integers(0, 3), st.booleans()).map(list), min_size=1, max_size=3),
                     st.booleans()).map(list)
   lookup = st.fixed_dictionaries({'one': st.booleans(), 'keys': st.one_of(st.lists(keyspec, min_size=1, max_size=2), st.lists(keyspec, min_size=0, max_size=2)),
                                   'ord': order})
-  op = st.tuples(st.sampled_from(list(range(12))), sel, sel, sel, st.lists(sel, min_size=0, max_size=len(SRC_COLS))).map(list)
+  op = st.tuples(st.sampled_from(list(range(13))), sel, sel, sel, st.lists(sel, min_size=0, max_size=len(SRC_COLS))).map(list)
   bundle = st.lists(op, min_size=1, max_size=3)
   return st.fixed_dictionaries({
     'cls': st.integers(0, 2),
@@ -174,7 +176,7 @@ def build_lookup(spec):
   """-> dict(formula, one, conds=[(col, mode, src, has_me, me)], order, labels)"""
   conds, args, labels, used = [], [], [], set()
   for ks in (g(spec, 'keys', []) or [])[:2]:
-    col, ctype = KEYCOLS[gi(ks, 0) % len(KEYCOLS)]
+    col, ctype = LOOKUP_COLS[gi(ks, 0) % len(LOOKUP_COLS)]
     if col in used:
       continue
     used.add(col)
@@ -201,7 +203,7 @@ def build_lookup(spec):
       text = repr(src[1]) if src[0] == 'const' else '$' + src[1]
       args.append('%s=%s' % (col, text))
       conds.append((col, 'eq', src, False, None))
-      labels.append('key:eq:' + p)
+      labels.append('key:eq:' + (p if col != 'KF' else 'formula-column'))
     labels.append('key-src:' + ('const' if src[0] == 'const' else 'per-row'))
   order, otext, olabel = order_of(g(spec, 'ord', [0]))
   if otext:
@@ -217,14 +219,18 @@ def build_lookup(spec):
 # ---------------------------------------------------------------------------
 # edits -> user actions
 
-def resolve_edits(d, bundle, with_none):
-  """One generated bundle -> (user actions, abstract kinds, touches_src)."""
+def resolve_edits(d, bundle, with_none, last_undo=None):
+  """One generated bundle -> (user actions, abstract kinds)."""
   uas, kinds = [], []
+  if bundle and gi(bundle[0], 0) % 13 == 12:                    # undo the previous bundle (as the client would)
+    if last_undo:
+      return [['ApplyUndoActions', last_undo]], ['undo']
+    return [], []
   rows = d.row_ids('Src')
   prows = d.row_ids('Probe')
   live = list(rows)
   for op in bundle[:3]:
-    k = gi(op, 0) % 12
+    k = gi(op, 0) % 13
     a, b, c, vals = gi(op, 1), gi(op, 2), gi(op, 3), g(op, 4, []) or []
     if k in (0, 1) and live:                                   # key edit
       col, ctype = KEYCOLS[b % len(KEYCOLS)]
@@ -446,7 +452,8 @@ def run_case(case):
   d = Doc()
   r = d.apply([['AddTable', 'Tgt', [{'id': 'Name', 'type': 'Text', 'isFormula': False}]],
                ['BulkAddRecord', 'Tgt', [None] * 3, {'Name': ['x', 'y', 'z']}],
-               ['AddTable', 'Src', [{'id': c, 'type': t, 'isFormula': False} for c, t in SRC_COLS]]])
+               ['AddTable', 'Src', [{'id': c, 'type': t, 'isFormula': False} for c, t in SRC_COLS] +
+                [{'id': 'KF', 'type': 'Text', 'isFormula': True, 'formula': KF_FORMULA}]]])
   if not r.ok:
     raise RuntimeError('setup failed: %r' % (r.error,))
   rows = [x for x in (g(case, 'rows', []) or [])[:8] if isinstance(x, list)]
@@ -468,21 +475,23 @@ def run_case(case):
   ck = Checker(d, lookups, out, with_none)
   failed = ck.check('initial', False)
   n_src_edits = 0
+  last_undo = None
   for bundle in (g(case, 'edits', []) or [])[:8]:
     if failed:
       break
     if not isinstance(bundle, list):
       continue
-    uas, kinds = resolve_edits(d, [op for op in bundle if isinstance(op, list)], with_none)
+    uas, kinds = resolve_edits(d, [op for op in bundle if isinstance(op, list)], with_none, last_undo)
     if not uas:
       continue
     r = d.apply(uas)
     if not r.ok:
       out.cls('rejected-bundle:' + '+'.join(sorted(set(kinds))))
       break
+    last_undo = r.undo if kinds != ['undo'] else None
     for k in kinds:
       out.cls('edit:' + k)
-    if 'retype' in kinds:
+    if 'retype' in kinds or 'undo' in kinds:
       ck.refresh_types()
     if any(k != 'probe-edit' for k in kinds):
       n_src_edits += 1
